@@ -330,3 +330,8 @@ CLAIMS["C18"]["text"] += (" TestTransportListenHistory runs the real WebTranspor
 CLAIMS["C19"]["text"] += (" Server secrets are exercised over their shape: application-provided HmacKeys of 1-200 bytes, pairs that differ in one byte at any position class or extend/truncate each other, rotation of one server's key, and forgeries under secrets close to the target's, randomly and by a complete enumeration of 142 key pairs. "
     "Header syntax around values is exercised too (bytes after the closing quote, missing/doubled/inner quotes, whitespace, unquoted; random operator + 768-request enumeration + fuzz corpus): a value counts as carried only in a parameter whose quoting is intact.")
 CLAIMS["C19"]["note"] += (" HMAC keys contain no zero bytes (HMAC zero-pads short keys); for unquoted values, single quotes, blanks around '=' and a backslash before the closing quote either outcome is allowed.")
+
+CLAIMS["C08"]["text"] += (" Keys are generated over their size/curve classes: ECDSA on every curve the API takes (P-224/256/384/521, via Generate...WithCurve, ECDSAKeyPairFromKey and x509 wire forms) and RSA at and one step inside/outside the documented bounds (2047/2048/2049 and 8191/8192/8193 bits). "
+    "Every supported class must round-trip, sign/verify and seal envelopes that all receivers accept (TestKeySizesAndCurves; the same classes flow through the round-trip, sign/verify, mutation, envelope and peerstore tests, label class:*).")
+CLAIMS["C08"]["note"] += (" 8191-8193-bit RSA keys are fixed fixtures (openssl primes assembled with math/big); the library's own 8192-bit generation is not run, its size check is probed with a failing reader; RSA sizes strictly between 2049 and 8191 are not sampled; "
+    "out-of-bounds keys may be refused and those wrapped by KeyPairFromStdKey are not judged.")
